@@ -157,6 +157,9 @@ def run_nameddl(ctx, spec):
   shapes = [(2 ** 16, 1), (2 ** 20, 3), (2 ** 12, 64), (2 ** 18, 17),
             (2 ** 22, 2), (1000, 5), (2 ** 14, 33), (2 ** 16, 2)]
   rng.shuffle(shapes)
+  # one long list (beyond 256 points) in every history
+  shapes.insert(rng.below(min(len(shapes), spec['calls'])),
+                (2 ** 10, rng.choice([257, 300, 513])))
   seen_sizes = set()
   # a small table first (a difference search with max_diff = 256 / 64)
   md0 = rng.choice([64, 256])
